@@ -2,8 +2,8 @@
 //!
 //! Bounded exhaustive enumeration of the mutation neighbourhood of two valid base tokens (claims
 //! version 0 and 1, signed with the repo's constant Ed25519 test key): every single mutation, every
-//! pair of mutations from different groups (thorough: additionally every triple of header/claim
-//! mutations), plus all short strings over a small alphabet. Every string is judged by
+//! pair of mutations from different groups (thorough: additionally every triple from three
+//! different groups over a catalogue with 32 instead of 512 signature bit flips), plus all short strings over a small alphabet. Every string is judged by
 //!   * an independent acceptance predicate written here (own base64url codec, `serde_json::Value`
 //!     walked by hand, `ed25519-dalek` verification, claim rules as the property words them), and
 //!   * the real `SnapTokenVerifier::verify` (static key) and the real router of
@@ -1031,10 +1031,11 @@ pub fn run(args: &vpc::Args) -> ! {
             record(base_ver, &[a, b], r);
         });
 
-        // triples of header/claim mutations (thorough)
+        // triples from three different groups over the reduced catalogue (thorough)
         let mut ntriples = 0usize;
         if thorough {
-            let hc: Vec<&Mutn> = cp.iter().copied().filter(|x| x.group != "sig" && x.group != "str").collect();
+            let cat_red = catalogue(base_ver, 16);
+            let hc: Vec<&Mutn> = cat_red.iter().filter(|x| !is_identity(&[x])).collect();
             let mut triples = vec![];
             for i in 0..hc.len() {
                 for j in i + 1..hc.len() {
@@ -1062,7 +1063,7 @@ pub fn run(args: &vpc::Args) -> ! {
             pairs.len(),
             cp.len(),
             if thorough { "full catalogue" } else { "signature flips reduced to every 16th bit" },
-            if thorough { format!("all {ntriples} triples of header/claim mutations from three different groups") } else { "no triples".to_string() },
+            if thorough { format!("all {ntriples} triples from three different groups over the catalogue with signature flips reduced to every 16th bit") } else { "no triples".to_string() },
         ));
     }
 
